@@ -19,11 +19,13 @@ CFG = {
     'names': {'bindings::bind': 'bindings_bind', 'bindings::find': 'bindings_find', 'uprefs::find': 'uprefs_find',
               'uprefs::refd_ids': 'uprefs_refd_ids', 'binding::get_bind': 'binding_get_bind', 'binding::is_builtin': 'binding_is_builtin',
               'upref::is_builtin': 'upref_is_builtin', 'upref::mark_used': 'upref_mark_used', 'upref::is_id_used': 'upref_is_id_used',
-              'upref::get_id': 'upref_get_id'},
-    'types': {r'std::reference_wrapper<op_bind>': 'op_bind *', r'op_bind': 'op_bind', r'builtin': 'builtin', STR: 'name_t', BMAP: 'bmap', UMAP: 'umap', IDMAP: 'idmap', BIT: 'bentry *', UIT: 'uentry *', BPAIR: 'bentry', UPAIR: 'uentry'},
-    'types_are_records': {BMAP: True, UMAP: True, IDMAP: True, BPAIR: True, UPAIR: True},
-    'record_ctypes': ['bmap', 'umap', 'idmap', 'bentry', 'uentry'],
-    'record_default': {'idmap': 'idmap_new()'},
+              'upref::get_id': 'upref_get_id', '_ZN6uprefsC1ER8bindingsRS_': 'uprefs_ctor_nested'},
+    'types': {r'(const )?std::vector<' + STR + r'(, std::allocator<' + STR + r'>)?>': 'namevec',
+              r'(const )?(__gnu_cxx::__normal_iterator<(const )?' + STR + r' \*, std::vector<' + STR + r'.*>>|std::vector<' + STR + r'.*>::(const_)?iterator)': 'name_t *',
+              r'std::reference_wrapper<op_bind>': 'op_bind *', r'op_bind': 'op_bind', r'builtin': 'builtin', STR: 'name_t', BMAP: 'bmap', UMAP: 'umap', IDMAP: 'idmap', BIT: 'bentry *', UIT: 'uentry *', BPAIR: 'bentry', UPAIR: 'uentry'},
+    'types_are_records': {BMAP: True, UMAP: True, IDMAP: True, BPAIR: True, UPAIR: True, r'(const )?std::vector<' + STR + r'(, std::allocator<' + STR + r'>)?>': True},
+    'record_ctypes': ['bmap', 'umap', 'idmap', 'bentry', 'uentry', 'namevec'],
+    'record_default': {'idmap': 'idmap_new()', 'umap': 'umap_new()'},
     'opaque_records': ['op_bind', 'builtin'],
     'types_prelude': '#include "bind_model.h"\ntypedef struct op_bind op_bind; typedef struct builtin builtin;\n',
     'types_after': {'binding': 'typedef struct bentry { _Bool has; name_t first; binding second; } bentry;\n'
@@ -34,6 +36,11 @@ CFG = {
     'bodies_prelude': '#include "bind_model2.h"\n',
     'extern': {'__assert_fail': 'verif_assert_fail_libc',
                BMAP + r'::find': 'bmap_find', BMAP + r'::end': 'bmap_end', BMAP + r'::emplace': 'bmap_emplace_bind',
+               r'bindings::names_closure': 'names_closure_model', UMAP + r'::emplace': 'umap_emplace', UMAP + r'::insert': 'umap_insert_range',
+               r'std::vector<' + STR + r'.*>::begin': 'NAMEVEC_BEGIN', r'std::vector<' + STR + r'.*>::end': 'NAMEVEC_END',
+               r'__gnu_cxx::operator!=.*': {'c': 'IT_NE', 'by_value': True},
+               r'__gnu_cxx::__normal_iterator<.*>::operator\*': {'c': 'PTR_ID', 'by_value': True},
+               r'__gnu_cxx::__normal_iterator<.*>::operator\+\+': 'NAMEVEC_INC',
                UMAP + r'::find': 'umap_find', UMAP + r'::end': 'umap_end', UMAP + r'::begin': 'umap_begin',
                IDMAP + r'::operator\[\]': 'idmap_index',
                r'std::_Rb_tree_(const_)?iterator<.*>::operator->': {'c': 'PTR_ID', 'by_value': True},
@@ -71,10 +78,11 @@ OPB_CFG = {
                r'scon::get\|.*op_bind::state.*': 'scon_get_bind_state', r'scon::get\|.*rendezvous.*': 'scon_get_rdv',
                r'value_closure::get_env': 'closure_get_env',
                r'stack::pop': 'mstack_pop', r'stack::push': 'mstack_push',
-               VECV + r'::push_back': 'ivec_push_back'},
+               VECV + r'::push_back': 'ivec_push_back', VECV + r'::ctor\|.*size_type.*': 'ivec_sized', VECV + r'::operator\[\]': 'ivec_at',
+               VECV + r'::size': 'IVEC_SIZE'},
 }
 OPB_ROOTS = ['op_bind::next', 'op_bind::current', 'op_read::next', 'op_upread::next', 'op_lex_closure::next']
-ROOTS = ['bindings::bind', 'bindings::find', 'uprefs::find', 'uprefs::refd_ids']
+ROOTS = ['bindings::bind', 'bindings::find', 'uprefs::find', 'uprefs::refd_ids', '_ZN6uprefsC1ER8bindingsRS_']
 
 
 def prepare(tier):
@@ -94,6 +102,7 @@ def jobs(tier):
     add('bounded_find_chain', bsrc, 'hb_find_chain', 'bounded', 'bindings::find, recursion over a chain of <= 3 scopes', inputs=['name', 'depth'])
     add('bounded_scope_law', bsrc, 'hb_scope_law', 'bounded', 'shadowing / no leak law over two nested scopes', inputs=['name', 'q'])
     add('bounded_refd_ids', bsrc, 'hb_refd_ids', 'bounded', 'uprefs::refd_ids over the 4-name table', inputs=['id', 'k'])
+    add('bounded_uprefs_ctor', bsrc, 'hb_uprefs_ctor', 'bounded', 'uprefs::uprefs (bindings &, uprefs &): scope chain of <= 2 scopes, 4-name tables; names_closure modelled', inputs=['q'])
     add('bind_next', osrc, 'h_bind_next', 'proof', 'op_bind::next (loop-free), any stack of depth <= 7', inputs=['exhausted'])
     add('read_next', osrc, 'h_read_next', 'proof', 'op_read::next + op_bind::current (loop-free)', inputs=['exhausted'])
     add('bind_then_read', osrc, 'h_bind_then_read', 'lemma', 'bind followed by read restores the stack')
@@ -137,7 +146,9 @@ QUERIES = [('1 2 (|A B| A B)', '<1|2>'), ('1 2 (|A B| B A)', '<2|1>'), ('7 (|A| 
            ('1 (|A| (2, 3) (|B| A B))', '<1|2> <1|3>'), ('4 (|A| {A}) (|F| 9 (|A| F))', '<4>'), ('1 2 3 (|A B C| {C B A}) apply', '<3|2|1>'),
            ('1 (|A| 2 (|B| {A B})) (|F| 3 (|A| 4 (|B| F)))', '<1|2>'),
            ('5 ?(let A := 1;) A', None), ('5 !(let A := 1; 0 1 ?eq) A', None), ('"%( let A := 1; A %)" A', None), ('(let A := 1;)? A', None),
-           ('(0, 5) (?(1 ?lt) let A := 7;)? A', None), ('let A := 1; ?(let A := 2;) A', '<1>'), ('7 (let A := 2; A, let A := 3; A)', '<7|2> <7|3>')]
+           ('(0, 5) (?(1 ?lt) let A := 7;)? A', None), ('let A := 1; ?(let A := 2;) A', '<1>'), ('7 (let A := 2; A, let A := 3; A)', '<7|2> <7|3>'),
+           ('1 2 (|A B| {B {A} apply} apply)', '<2|1>'), ('1 2 3 (|A B C| {C {A B C} apply} apply)', '<3|1|2|3>'), ('10 3 (|A B| {A B sub}) apply', '<7>'),
+           ('1 (|A| {2 (|A| {A} apply)} apply)', '<2>'), ('1 2 (|A B| {A 10 add (|A| {A B})} apply apply)', '<11|2>')]
 
 
 def replay(r):
